@@ -247,3 +247,45 @@ Definition cat_equiv (d : db) (md : metadata) : Prop :=
 
 (* the catalog made by declaring the metadata directly *)
 Definition catalog_of (md : metadata) : db := map (fun t => (t_name t, t_fks t)) md.
+
+(* ---------------------------------------------------------------- metadata histories *)
+(* The MetaData a plan is computed from is the result of a history of Table(...) definitions,
+   MetaData.remove(t) and Table(..., extend_existing=True).  MetaData.tables is a dict: a definition
+   appends, remove deletes the key (a later definition of the same name goes to the END), extend
+   keeps the position.  A ForeignKey given by name ("parent.id") refers to whatever table has that name
+   NOW (MetaData._fk_memos re-points it when the name is defined again): [fk_ref] is a name, so
+   resolution against the current tables is built into the model.  extend_existing: a re-specified
+   column replaces the old column together with its ForeignKeyConstraint; other constraints stay
+   (foreign_key_constraints is a set: kept sorted by id here). *)
+Inductive step :=
+| Define (t : table)        (* Table(name, md, ...) *)
+| Remove (n : N)            (* md.remove(md.tables[name]) *)
+| Extend (t : table).       (* Table(name, md, ..., extend_existing=True) *)
+
+Fixpoint insert_fk (f : fk) (l : list fk) : list fk :=
+  match l with
+  | [] => [f]
+  | g :: r => if N.leb (fk_id f) (fk_id g) then f :: l else g :: insert_fk f r
+  end.
+Definition sort_fks (l : list fk) : list fk := fold_right insert_fk [] l.
+Definition extend_fks (old new : list fk) : list fk :=
+  sort_fks (filter (fun f => negb (has_fk (fk_id f) new)) old ++ new).
+
+(* [None]: InvalidRequestError "Table is already defined for this MetaData instance" *)
+Definition apply_step (md : metadata) (s : step) : option metadata :=
+  match s with
+  | Define t => if memb (t_name t) (names md) then None else Some (md ++ [t])
+  | Remove n => Some (filter (fun t => negb (N.eqb (t_name t) n)) md)
+  | Extend t =>
+    if memb (t_name t) (names md)
+    then Some (map (fun u => if N.eqb (t_name u) (t_name t)
+                             then mktable (t_name u) (extend_fks (t_fks u) (t_fks t)) (t_extra u ++ t_extra t)
+                             else u) md)
+    else Some (md ++ [t])
+  end.
+Fixpoint run_history (md : metadata) (h : list step) : option metadata :=
+  match h with
+  | [] => Some md
+  | s :: r => match apply_step md s with Some md' => run_history md' r | None => None end
+  end.
+Definition current (h : list step) : option metadata := run_history [] h.
